@@ -2,6 +2,7 @@ import YaqsModel.Lemmas.Trotter
 import YaqsModel.Lemmas.TrotterBonds
 import YaqsModel.Lemmas.TrotterBlk
 import YaqsModel.Lemmas.TrotterGRat
+import YaqsModel.Lemmas.MpoConv
 
 /-!
 # C07 — model library: MPO builders equal their definition; Trotter circuits match them
@@ -457,3 +458,346 @@ theorem transmon_even_length_broken_old (n : Nat) (hn : 1 ≤ n) :
 end blk
 
 end Yaqs.Trotter
+
+/-!
+# C07, extension — conversions, factorisation and compression of an MPO (model `Model/MpoConv.lean`)
+
+The clauses "its dense and sparse conversions agree, compression changes it by no more than the tolerance, and a dense
+matrix factorised into an MPO converts back to itself", for every chain length, all bond dimensions, per-site physical
+dimensions, and any commutative (semi)ring of coefficients.  LAPACK's SVD enters as explicit hypotheses (spec-tied by
+`harness/impl/C07.py` on every matrix the real code decomposes); the rank rules are C09's `keepFromMatrix` /
+`keepCompress` (`Model/Rank.lean`), the error of one truncated split is C09's `c09_split_error`.
+-/
+namespace Yaqs.MpoConv
+open Yaqs.Index
+
+section conversions
+variable {K : Type} [CommSemiring K]
+
+/-- **C07 (`to_matrix` = its definition)** `MPO.to_matrix` — the loop `contract("abcd, efdg->aebfcg")` + `reshape`, then
+    `squeeze` — on any well-formed chain (consecutive bonds match, outer bonds 1; otherwise the code raises): it returns a
+    `Π d_i × Π d_i` matrix whose entry at row `kronIdx σ`, column `kronIdx σ'` (site 0 the most significant digit — C06's
+    index map) is the sum over all bond paths of the product of the tensor entries.  Every length, any bond dimensions. -/
+theorem to_matrix_entry (ts : List (Site K)) (σ σ' : List Nat) (hw : wellFormed ts = true)
+    (hv : Valid (physDims ts) σ) (hv' : Valid (physDims ts) σ') :
+    ∃ M, toMatrixCode ts = some M ∧ M.rows = dimProd (physDims ts) ∧ M.cols = dimProd (physDims ts) ∧
+      M.e (kronIdx (physDims ts) σ) (kronIdx (physDims ts) σ') = toMatrixEntry ts σ σ' :=
+  toMatrixCode_entry ts σ σ' hw hv hv'
+
+/-- `to_matrix` raises exactly on the chains that are not well formed -/
+theorem to_matrix_raises_iff (ts : List (Site K)) : toMatrixCode ts = none ↔ wellFormed ts = false := by
+  cases ts with
+  | nil => simp [toMatrixCode, wellFormed]
+  | cons t ts => by_cases h : wellFormed (t :: ts) = true <;> simp [toMatrixCode, h]
+
+/-- **C07 (dense and sparse conversions agree)** `MPO.to_sparse_matrix` — the dict of bond index ↦ accumulated
+    `scipy.sparse.kron(left, block)` with absent keys and all-zero blocks skipped, finally key 0 or the zero matrix — and
+    `MPO.to_matrix` return the same entry at every in-range position, for every well-formed chain; both are the bond path
+    sum at the digits of the row / column index.  (The convention `kron(A, B)[i, j] = A[i / rB, j / cB] · B[i % rB, j % cB]`
+    is part of the model and value-tied.) -/
+theorem dense_eq_sparse [DecidableEq K] (pd len : Nat) (ts : List (Site K)) (hw : wellFormed ts = true)
+    (i j : Nat) (hi : i < dimProd (physDims ts)) (hj : j < dimProd (physDims ts)) :
+    ∃ M, toMatrixCode ts = some M ∧ M.e i j = (toSparseCode pd len ts).e i j ∧
+      M.e i j = toMatrixEntry ts (unflat (physDims ts) i) (unflat (physDims ts) j) := by
+  obtain ⟨hvi, hei⟩ := kronIdx_unflat (physDims ts) i hi
+  obtain ⟨hvj, hej⟩ := kronIdx_unflat (physDims ts) j hj
+  obtain ⟨M, hM, _, _, hMe⟩ := toMatrixCode_entry ts _ _ hw hvi hvj
+  have hs := toSparseCode_entry pd len ts _ _ hw hvi hvj
+  rw [hei, hej] at hMe hs
+  exact ⟨M, hM, by rw [hMe, hs], hMe⟩
+
+/-- shape of the sparse result when key 0 is present: `Π d_i` in both directions -/
+theorem sparse_shape [DecidableEq K] (ts : List (Site K)) :
+    (spAcc ts).rows = dimProd (physDims ts) ∧ (spAcc ts).cols = dimProd (physDims ts) := by
+  have := foldl_spStep_shape ts (spInit : SpAcc K)
+  simpa [spAcc, spInit] using this
+
+-- a 2-site chain over ℤ with bond dimension 2 (Z⊗X + 2·X⊗Z): entries by the loop, by the path sum and by the sparse route
+private def exA : Site Int := ⟨2, 1, 2, fun a b _ r =>
+  if r = 0 then (if a = b then (if a = 0 then 1 else -1) else 0) else (if a = b then 0 else 2)⟩
+private def exB : Site Int := ⟨2, 2, 1, fun a b l _ =>
+  if l = 0 then (if a = b then 0 else 1) else (if a = b then (if a = 0 then 1 else -1) else 0)⟩
+example : wellFormed [exA, exB] = true := by decide
+example : (toMatrixCode [exA, exB]).map (fun m => [(m.rows : Int), m.cols, m.e 0 1, m.e 1 0, m.e 0 2, m.e 3 1, m.e 3 2, m.e 0 0])
+    = some [4, 4, 1, 1, 2, -2, -1, 0] := by decide +kernel
+example : toMatrixEntry [exA, exB] [1, 1] [0, 1] = -2 ∧ kronIdx [2, 2] [1, 1] = 3 ∧ kronIdx [2, 2] [0, 1] = 1 := by decide +kernel
+example : (toSparseCode 2 2 [exA, exB]).e 3 1 = -2 ∧ (toSparseCode 2 2 [exA, exB]).rows = 4 := by decide +kernel
+
+/-! ## `from_matrix` -/
+
+/-- **C07 (`from_matrix` accepts exactly the right shapes)** the chain length is inferred, and `ValueError` raised,
+    exactly as documented: accepted iff `d ≥ 1`, the matrix is square of side `d ^ n` with `n ≥ 1` (for `d = 1`: `1 × 1`). -/
+theorem from_matrix_accepts_iff (d rows cols n : Nat) :
+    inferN d rows cols = some n ↔ 1 ≤ d ∧ rows = cols ∧ 1 ≤ n ∧ rows = d ^ n ∧ (d = 1 → n = 1) :=
+  inferN_eq_some_iff d rows cols n
+
+example : inferN 2 8 8 = some 3 ∧ inferN 3 9 9 = some 2 ∧ inferN 2 6 6 = none ∧ inferN 2 1 1 = none ∧
+    inferN 1 1 1 = some 1 ∧ inferN 1 2 2 = none ∧ inferN 0 1 1 = none ∧ inferN 2 4 8 = none := by decide +kernel
+
+/-- **C07 (a dense matrix factorised into an MPO converts back to itself)** `MPO.from_matrix(M, d)` for a
+    `d^n × d^n` matrix, given the SVD results of its `n − 1` splitting steps.  If at every step the kept columns, values
+    and rows reconstruct the regrouped remainder exactly (`x_k = u[:, :r] diag(s[:r]) vh[:r]` — the untruncated SVD spec,
+    or a truncation that only cut zeros), then the bond path sum of the returned tensors at `(σ, σ')` is
+    `M[kronIdx σ, kronIdx σ']`; with `to_matrix_entry`: `from_matrix(M).to_matrix() = M`.  Induction over the splitting
+    steps; each step is "regroup ∘ (U·S·V) ∘ regroup⁻¹ = id" on the remainder (`fmX_apply`). -/
+theorem from_matrix_roundtrip_exact (d n : Nat) (hn : 1 ≤ n) (M : Nat → Nat → K) (cutoff : Rat) (maxB : Option Nat)
+    (decs : List (Dec K)) (hx : ExactDecs d cutoff maxB (n - 1) 1 (remOfMat M) decs)
+    (σ σ' : List Nat) (hv : Valid (List.replicate n d) σ) (hv' : Valid (List.replicate n d) σ') :
+    toMatrixEntry (fromMatrixGo d cutoff maxB (n - 1) 1 (remOfMat M) decs) σ σ'
+      = M (kronIdx (List.replicate n d) σ) (kronIdx (List.replicate n d) σ') := by
+  obtain ⟨m, rfl⟩ : ∃ m, n = m + 1 := ⟨n - 1, by omega⟩
+  simp only [Nat.add_sub_cancel] at hx ⊢
+  exact fromMatrixGo_vals d cutoff maxB m 1 (remOfMat M) decs σ σ' hx hv hv' 0 (by omega)
+
+/-- the tensors `from_matrix` returns form a well-formed chain of `n` sites of physical dimension `d` whose bond
+    dimensions are `keepFromMatrix` of the spectra (so `to_matrix` does not raise on them) -/
+theorem from_matrix_shapes (d : Nat) (cutoff : Rat) (maxB : Option Nat) :
+    ∀ (m lr : Nat) (rem : Rem K) (decs : List (Dec K)), decs.length = m →
+    (fromMatrixGo d cutoff maxB m lr rem decs).length = m + 1 ∧
+    physDims (fromMatrixGo d cutoff maxB m lr rem decs) = List.replicate (m + 1) d ∧
+    chainFrom lr (fromMatrixGo d cutoff maxB m lr rem decs) = true ∧
+    lastDr lr (fromMatrixGo d cutoff maxB m lr rem decs) = 1 ∧
+    bondDims (fromMatrixGo d cutoff maxB m lr rem decs)
+      = lr :: (decs.map fun dec => Rank.keepFromMatrix dec.s cutoff maxB) ++ [1]
+  | 0, lr, rem, decs, h => by
+    have : decs = [] := List.length_eq_zero_iff.mp h
+    subst this
+    simp [fromMatrixGo, physDims, fmLast, chainFrom, lastDr, bondDims]
+  | m + 1, lr, rem, dec :: decs, h => by
+    obtain ⟨h1, h2, h3, h4, h5⟩ := from_matrix_shapes d cutoff maxB m (Rank.keepFromMatrix dec.s cutoff maxB)
+      (fmRem (d ^ (m + 1)) dec.sv dec.Vh) decs (by simpa using h)
+    refine ⟨by simp [fromMatrixGo, h1], ?_, ?_, ?_, ?_⟩
+    · simp only [physDims] at h2
+      simp [fromMatrixGo, physDims, h2, fmSite, List.replicate_succ]
+    · simp [fromMatrixGo, chainFrom, fmSite, h3]
+    · simp [fromMatrixGo, lastDr, fmSite, h4]
+    · have hne : fromMatrixGo d cutoff maxB m (Rank.keepFromMatrix dec.s cutoff maxB)
+          (fmRem (d ^ (m + 1)) dec.sv dec.Vh) decs ≠ [] := by
+        intro h0; rw [h0] at h1; simp at h1
+      cases hgo : fromMatrixGo d cutoff maxB m (Rank.keepFromMatrix dec.s cutoff maxB)
+          (fmRem (d ^ (m + 1)) dec.sv dec.Vh) decs with
+      | nil => exact absurd hgo hne
+      | cons t rest =>
+        rw [hgo] at h5
+        simp only [bondDims, List.map_cons, List.cons_append, List.cons.injEq] at h5
+        simp [fromMatrixGo, hgo, bondDims, fmSite, h5.2]
+  | _ + 1, _, _, [], h => by simp at h
+
+-- 4 × 4 matrix A ⊗ B over ℤ (A = [[1,2],[3,4]], B = [[1,0],[2,1]]): the regrouped matrix has rank 1, `u = vec A`, `s = [1]`,
+-- `vh = vec B`; the decomposition is exact, and the two tensors give back every entry
+private def exM : Nat → Nat → Int := fun i j => (2 * (i / 2) + j / 2 + 1) * (if i % 2 = j % 2 then 1 else if i % 2 = 1 then 2 else 0)
+private def exDec : Dec Int := ⟨fun i _ => i + 1, [1], fun _ => 1, fun _ j => if j = 0 ∨ j = 3 then 1 else if j = 2 then 2 else 0⟩
+example : ExactDecs 2 (1 / 1000000000000) none 1 1 (remOfMat exM) [exDec] := by
+  refine ⟨?_, trivial⟩
+  decide +kernel
+example : toMatrixEntry (fromMatrixGo 2 (1 / 1000000000000) none 1 1 (remOfMat exM) [exDec]) [1, 1] [0, 0] = 6 ∧
+    exM (kronIdx [2, 2] [1, 1]) (kronIdx [2, 2] [0, 0]) = 6 := by decide +kernel
+
+end conversions
+
+section truncation
+open Matrix Yaqs.Split
+variable {K : Type} [CommRing K] [StarRing K]
+
+/-- **C07 (`from_matrix` with truncation, one step — the induction step of `from_matrix_error`)** From the SVD spec of
+    the regrouped remainder `X = U diag(s) V`, `UᴴU = 1`, `VVᴴ = 1`: keeping the columns selected by `e` (the code's prefix
+    `[:r_keep]`) and replacing the exact new remainder `(diag(s) V)[kept]` by *any* approximation `Rt` (what the later steps
+    make of it) changes `X` by exactly `Σ_{dropped} |s_i|²  +  ‖(diag(s) V)[kept] − Rt‖²_F` — the discarded weight of this
+    step (C09 `c09_split_error`) plus the error on the remainder, because the already fixed left factor is an isometry
+    and the two error parts are orthogonal. -/
+theorem from_matrix_step_error {m n k k' : Type} [Fintype m] [Fintype n] [Fintype k] [Fintype k']
+    [DecidableEq k] [DecidableEq k'] (U : Matrix m k K) (V : Matrix k n K) (s : k → K)
+    (hU : Uᴴ * U = 1) (hV : V * Vᴴ = 1) (e : k' → k) (he : Function.Injective e)
+    (kept : k → Prop) [DecidablePred kept] (hk : ∀ i, kept i ↔ ∃ j, e j = i) (Rt : Matrix k' n K) :
+    frobSq (U * diagonal s * V - U.submatrix id e * Rt)
+      = (∑ i, if kept i then 0 else star (s i) * s i) + frobSq ((diagonal s * V).submatrix e id - Rt) :=
+  split_then_approx_error U V s hU hV e he kept hk Rt
+
+/-- **C07 (`from_matrix` with truncation: the change is the discarded weight)** `MPO.from_matrix(M, d, max_bond, cutoff)`
+    for a `d^n × d^n` matrix, with the SVD spec at each of its `n − 1` steps (`x_k = u diag(s) vh`, `uᴴu = 1`, `vh vhᴴ = 1`,
+    kept rank `keepFromMatrix` — C09's rule — not larger than the number of singular values):
+    `Σ_{i,j} |M[i,j] − (path sum of the returned tensors at the digits of i, j)|²  =  Σ_k Σ_{p ≥ keep_k} |s_{k,p}|²`,
+    i.e. (with `to_matrix_entry`) `‖M − from_matrix(M).to_matrix()‖²_F` is exactly the sum over the steps of the discarded
+    weights; in particular 0 when nothing non-zero is cut, and at most `Σ_k (#cut_k) · cutoff²` when only `cutoff` acts.
+    Induction over the steps: `from_matrix_step_error` at each step, the regrouping `fmX` only permutes entries
+    (`frob3_regroup`). -/
+theorem from_matrix_error (d n : Nat) (hn : 1 ≤ n) (M : Nat → Nat → K) (cutoff : Rat) (maxB : Option Nat)
+    (decs : List (Dec K)) (hlen : decs.length = n - 1) (hx : SvdDecs d cutoff maxB (n - 1) 1 (remOfMat M) decs) :
+    ∑ i ∈ Finset.range (d ^ n), ∑ j ∈ Finset.range (d ^ n),
+        sqAbs (M i j - toMatrixEntry (fromMatrixGo d cutoff maxB (n - 1) 1 (remOfMat M) decs)
+          (unflat (List.replicate n d) i) (unflat (List.replicate n d) j))
+      = totalDisc cutoff maxB decs := by
+  obtain ⟨m, rfl⟩ : ∃ m, n = m + 1 := ⟨n - 1, by omega⟩
+  simp only [Nat.add_sub_cancel] at hx hlen ⊢
+  have := fromMatrixGo_error d cutoff maxB m 1 (remOfMat M) decs hlen hx
+  simpa [frob3, recon, remOfMat, toMatrixEntry] using this
+
+-- non-vacuity over ℚ: the 4 × 4 matrix whose regrouping is diag(4, 3, 2, 1) (u = vh = 1); cutoff 5/2 keeps two values,
+-- the squared change is 2² + 1² = 5
+private def exU : Nat → Nat → ℚ := fun i j => if i = j then 1 else 0
+private def exD : Dec ℚ := ⟨exU, [4, 3, 2, 1], fun p => 4 - p, exU⟩
+private def exM4 : Nat → Nat → ℚ := fun i j =>
+  if i / 2 = i % 2 ∧ j / 2 = j % 2 then ((4 - (2 * (i / 2) + j / 2) : Nat) : ℚ) else 0
+example : SvdDecs 2 (5 / 2) none 1 1 (remOfMat exM4) [exD] := by
+  refine ⟨?_, ?_, ?_, ?_, trivial⟩
+  · decide +kernel
+  · decide +kernel
+  · decide +kernel
+  · decide +kernel
+example : totalDisc (5 / 2) none [exD] = 5 := by decide +kernel
+
+-- non-vacuity over ℚ (trivial star): U = V = 1 (2 × 2), s = (3, 4), keep the first value, approximate the remainder (3, 0) by (1, 0):
+-- every hypothesis is met
+example : True := by
+  have := from_matrix_step_error (1 : Matrix (Fin 2) (Fin 2) ℚ) (1 : Matrix (Fin 2) (Fin 2) ℚ) ![3, 4] (by simp) (by simp)
+    (![0] : Fin 1 → Fin 2) (by intro a b _; exact Subsingleton.elim a b) (fun i => i = 0)
+    (by intro i; constructor
+        · intro h; exact ⟨0, by simp [h]⟩
+        · rintro ⟨j, hj⟩; rw [← hj]; simp)
+    (!![1, 0] : Matrix (Fin 1) (Fin 2) ℚ)
+  trivial
+
+/-- **C07 (compression, one SVD step with truncation)** From the SVD spec of the two-site matrix `theta` of bond
+    `(k, k+1)` (`theta = U diag(s) V`, isometries, `kf` singular values): the two-site block of the tensors written back
+    (`u[:, :keep]` reshaped; `s[:keep] · vh[:keep]` reshaped — the singular values go to the right in both directions) differs
+    from the old block by exactly the discarded weight `Σ_{p ≥ keep} |s_p|²`, in particular by at most
+    `(kf − keep) · tol²` when `keep` counts the values above `tol`. -/
+theorem compress_step_block_error (a b : Site K) (dec : Dec K) (kf keep : Nat) (hkeep : keep ≤ kf)
+    (hspec : toMat (a.dl * a.d * a.d) (a.d * a.d * b.dr) (theta a b)
+      = toMat (a.dl * a.d * a.d) kf dec.U * diagonal (fun p : Fin kf => dec.sv p) * toMat kf (a.d * a.d * b.dr) dec.Vh)
+    (hU : (toMat (a.dl * a.d * a.d) kf dec.U)ᴴ * toMat (a.dl * a.d * a.d) kf dec.U = 1)
+    (hV : toMat kf (a.d * a.d * b.dr) dec.Vh * (toMat kf (a.d * a.d * b.dr) dec.Vh)ᴴ = 1) :
+    frobSq (toMat (a.dl * a.d * a.d) (a.d * a.d * b.dr) (theta a b)
+        - toMat (a.dl * a.d * a.d) (a.d * a.d * b.dr) (theta (cLeft a keep dec.U) (cRight a b keep dec.sv dec.Vh)))
+      = ∑ p : Fin kf, if (p : Nat) < keep then 0 else star (dec.sv p) * dec.sv p :=
+  compressStep_block_error a b dec kf keep hkeep hspec hU hV
+
+end truncation
+
+section compression
+variable {K : Type} [CommSemiring K]
+
+/-- **C07 (compression with the untruncated spec changes nothing)** a whole `_compress_one_sweep` (any direction; more
+    generally any list of bonds) in which at every step the kept part of the SVD reconstructs the two-site matrix exactly
+    leaves the bond path sum at every configuration pair — every entry of `to_matrix()` — unchanged: the gauge argument
+    of C10's `c10_shift_right_SVD`, here for the list model with two physical legs (`vals_two_site_replace`). -/
+theorem compress_sweep_invariant (dir : Dir) (tol : Rat) (maxB : Option Nat) (ts : List (Site K)) (decs : List (Dec K))
+    (hw : wellFormed ts = true) (hx : ExactSweep tol maxB ts (sweepOrder dir ts.length) decs)
+    (σ σ' : List Nat) (hv : Valid (physDims ts) σ) (hv' : Valid (physDims ts) σ') :
+    toMatrixEntry (compressSweep dir tol maxB ts decs) σ σ' = toMatrixEntry ts σ σ' := by
+  cases ts with
+  | nil => simp [wellFormed] at hw
+  | cons t ts =>
+    simp only [wellFormed, Bool.and_eq_true, decide_eq_true_eq] at hw
+    have hc : chainFrom 1 (t :: ts) = true := by simp [chainFrom, hw.1.1, hw.1.2]
+    exact compressFold_vals tol maxB _ decs (t :: ts) 1 σ σ' hc hx hv hv' 0 (by omega)
+
+/-- **C07 (`compress`: which sweeps run)** `compress(n_sweeps, directions)` raises `ValueError` iff `n_sweeps < 0` or
+    `directions` is not one of the four documented strings; otherwise it runs `n_sweeps` repetitions of the schedule
+    (so `n_sweeps = 0` does nothing). -/
+theorem compress_plan (n : Int) (dirs : String) :
+    (compressPlan n dirs = none ↔ n < 0 ∨ schedule dirs = none) ∧
+    (∀ sch, 0 ≤ n → schedule dirs = some sch → compressPlan n dirs = some (List.replicate n.toNat sch).flatten) ∧
+    (schedule dirs ≠ none ↔ dirs = "lr" ∨ dirs = "rl" ∨ dirs = "lr_rl" ∨ dirs = "rl_lr") := by
+  refine ⟨?_, ?_, ?_⟩
+  · unfold compressPlan
+    by_cases h : n < 0
+    · simp [h]
+    · cases hs : schedule dirs <;> simp [h]
+  · intro sch h0 hs
+    unfold compressPlan
+    simp [not_lt.mpr h0, hs]
+  · unfold schedule
+    split <;> simp_all
+
+example : compressPlan 2 "lr_rl" = some [.lr, .rl, .lr, .rl] ∧ compressPlan 0 "rl" = some [] ∧
+    compressPlan (-1) "lr" = none ∧ compressPlan 1 "both" = none := by decide
+
+/-- **C07 (shapes after a compression sweep; the sweep is a finite fold, hence terminates)** For a valid chain and one
+    SVD result per bond, a sweep in either direction returns a chain of the same length that is still valid
+    (`check_if_valid_mpo`), with the same outer bonds, in which the bond touched by the `j`-th SVD call has dimension
+    `keepCompress` of that call's spectrum — `max(1, min(#{s > tol}, max_bond_dim))`, C09 `c09_compress_bounds`: at least 1,
+    at most the cap, at most the number of singular values.  The `j`-th call is at bond `j` (`lr`) resp. `L − 2 − j` (`rl`). -/
+theorem compress_terminates_shapes (dir : Dir) (tol : Rat) (maxB : Option Nat) (ts : List (Site K)) (decs : List (Dec K))
+    (n : Nat) (hc : chainFrom n ts = true) (hlen : decs.length = ts.length - 1) :
+    (compressSweep dir tol maxB ts decs).length = ts.length ∧
+    chainFrom n (compressSweep dir tol maxB ts decs) = true ∧
+    lastDr n (compressSweep dir tol maxB ts decs) = lastDr n ts ∧
+    (bondDims (compressSweep dir tol maxB ts decs)).getD 0 0 = (bondDims ts).getD 0 0 ∧
+    (∀ j (hj : j < decs.length) (hj' : j < (sweepOrder dir ts.length).length),
+      (bondDims (compressSweep dir tol maxB ts decs)).getD ((sweepOrder dir ts.length)[j] + 1) 0
+        = Rank.keepCompress (decs[j]).s tol maxB ∧
+      1 ≤ Rank.keepCompress (decs[j]).s tol maxB ∧
+      (∀ cap, maxB = some cap → 1 ≤ cap → Rank.keepCompress (decs[j]).s tol maxB ≤ cap)) ∧
+    (sweepOrder .lr ts.length = List.range (ts.length - 1)) ∧
+    (sweepOrder .rl ts.length = (List.range (ts.length - 1)).reverse) := by
+  have hmem := fun k hk => sweepOrder_mem dir ts.length k hk
+  obtain ⟨c1, c2, c3⟩ := compressFold_chain tol maxB (sweepOrder dir ts.length) decs ts n hc hmem
+  have hb := compressFold_bondDims tol maxB (sweepOrder dir ts.length) decs ts (sweepOrder_nodup dir ts.length) hmem
+  refine ⟨c3, c1, c2, ?_, ?_, rfl, rfl⟩
+  · have h0 := hb 0
+    have : ((sweepOrder dir ts.length).zip decs).find? (fun kd => decide (kd.1 + 1 = 0)) = none := by
+      rw [List.find?_eq_none]; intro kd _; simp
+    rw [this] at h0
+    simpa [compressSweep] using h0
+  · intro j hj hj'
+    have hbj := hb ((sweepOrder dir ts.length)[j] + 1)
+    rw [find_zip_nodup _ decs j hj' hj (sweepOrder_nodup dir ts.length)] at hbj
+    have hbounds := Rank.c09_compress_bounds (decs[j]).s tol maxB
+    exact ⟨by simpa [compressSweep] using hbj, hbounds.1, hbounds.2.1⟩
+
+-- a 3-site chain with bonds [1, 2, 2, 1]; spectra [1, 1/2] and [1, 0] with tol 1/4: bonds after an lr sweep [1, 2, 1, 1]
+private def shp (dl dr : Nat) : Site Int := ⟨2, dl, dr, fun _ _ _ _ => 0⟩
+private def decOf (s : List Rat) : Dec Int := ⟨fun _ _ => 0, s, fun _ => 0, fun _ _ => 0⟩
+example : bondDims (compressSweep .lr (1 / 4) none [shp 1 2, shp 2 2, shp 2 1] [decOf [1, 1 / 2], decOf [1, 0]]) = [1, 2, 1, 1] ∧
+    bondDims (compressSweep .rl (1 / 4) (some 1) [shp 1 2, shp 2 2, shp 2 1] [decOf [1, 1 / 2], decOf [1, 1]]) = [1, 1, 1, 1] ∧
+    chainFrom 1 [shp 1 2, shp 2 2, shp 2 1] = true := by decide +kernel
+
+/-- **C07 (`MPO.identity`)** the chain of `L` tensors `expand_dims(eye(d))` is the identity operator: its path sum at
+    `(σ, σ')` is 1 if the configurations agree and 0 otherwise (for every `d`, after the repair D24 that makes the
+    builder honour `physical_dimension`). -/
+theorem identity_entry (L d : Nat) : ∀ (σ σ' : List Nat), σ.length = L → σ'.length = L → ∀ l,
+    vals (identityMpo L d : List (Site K)) σ σ' l = if σ = σ' then 1 else 0 := by
+  induction L with
+  | zero =>
+    intro σ σ' h h' l
+    have e1 : σ = [] := List.length_eq_zero_iff.mp h
+    have e2 : σ' = [] := List.length_eq_zero_iff.mp h'
+    subst e1 e2
+    simp [identityMpo, vals]
+  | succ L ih =>
+    intro σ σ' h h' l
+    cases σ with
+    | nil => simp at h
+    | cons a σ =>
+      cases σ' with
+      | nil => simp at h'
+      | cons b σ' =>
+        have := ih σ σ' (by simpa using h) (by simpa using h') 0
+        simp only [identityMpo] at this
+        simp only [identityMpo, List.replicate_succ, vals_cons]
+        rw [show (identitySite d : Site K).dr = 1 from rfl, Finset.sum_range_one, this]
+        by_cases hab : a = b
+        · subst hab; simp [identitySite]
+        · have : ¬ (a :: σ = b :: σ') := fun hc => hab (List.cons.inj hc).1
+          simp [identitySite, hab, this]
+
+/-- **C07 (`MPO.rotate`)** swapping the two physical legs of every tensor — after conjugating the entries when
+    `conjugate=True` (`cj` a ring homomorphism: the identity or complex conjugation) — turns the operator into its
+    transpose resp. adjoint: the path sum at `(σ, σ')` becomes `cj` of the old path sum at `(σ', σ)`. -/
+theorem rotate_entry (cj : K →+* K) : ∀ (ts : List (Site K)) (σ σ' : List Nat) (l : Nat),
+    vals (rotateMpo cj ts) σ σ' l = cj (vals ts σ' σ l) := by
+  intro ts
+  induction ts with
+  | nil => intro σ σ' l; simp [rotateMpo, vals]
+  | cons t ts ih =>
+    intro σ σ' l
+    simp only [rotateMpo] at ih
+    simp only [rotateMpo, List.map_cons, vals, sumTo_eq_sum, rotateSite, map_sum, map_mul, ih]
+
+example : vals (identityMpo 3 2 : List (Site Int)) [0, 1, 1] [0, 1, 1] 0 = 1 ∧
+    vals (identityMpo 3 2 : List (Site Int)) [0, 1, 1] [0, 0, 1] 0 = 0 := by decide +kernel
+
+end compression
+
+end Yaqs.MpoConv
